@@ -127,19 +127,40 @@ def build(repo=None):
             ob(f"get_shape_memo:{shape}:modifies-nothing", all(s1.heap.get(h) is o0 for h, o0 in heap0.items()), s1)
 
     # ------------------------------------------------------------------ set_shape_memo
-    for shape in ("S1", "S2", "S3"):
+    # contract (what the callers rely on): afterwards the top frame holds exactly the CONTENTS the four arguments had at the call --
+    # either because the frame tuple now is the four argument objects, or because the frame's own dicts were restored in place; the
+    # arguments may be fresh snapshots or (some of) the frame's own dicts (aliasing); lower frames untouched; no-op without a context
+    CL_S3 = "set_shape_memo:S3:top-frame-holds-exactly-the-four-arguments'-contents(frame-replaced-or-restored-in-place)-lower-frames-untouched"
+    for shape, alias in (("S1", "fresh"), ("S2", "fresh"), ("S3", "fresh"), ("S3", "args-are-the-frame's-own-dicts"), ("S3", "structure-memo-argument-is-the-frame's-own-dict")):
         st, root, lst, top = shape_state(shape)
         new = mk_frame(st, "new")
+        if alias.startswith("args-are"):
+            new = Tup(list(top.items))
+        elif alias.startswith("structure-memo"):
+            new = Tup([new.items[0], new.items[1], top.items[2], new.items[3]])
         heap0 = dict(st.heap)
+        entry = [st.get(r) for r in new.items]
         outs = run_fn("set_shape_memo", st, engine_for("set_shape_memo", st, root), list(new.items))
         ob(f"set_shape_memo:{shape}:single-path", len(outs) == 1)
         for s1, o in outs:
             ob(f"set_shape_memo:{shape}:returns-normally", o.kind in ("normal", "return"), s1)
             if shape == "S3":
                 l1 = s1.get(lst)
-                ok = isinstance(l1, ListObj) and len(l1.items) == 1 and isinstance(l1.items[0], Tup) and [x.h for x in l1.items[0].items] == [x.h for x in new.items] and l1.lower is heap0[lst.h].lower
-                ob("set_shape_memo:S3:top-frame-replaced-by-the-four-arguments-lower-frames-untouched", ok, s1)
-                ob("set_shape_memo:S3:modifies-only-the-stack-list", all(s1.heap.get(h) is o0 for h, o0 in heap0.items() if h != lst.h), s1)
+                framed = isinstance(l1, ListObj) and len(l1.items) == 1 and isinstance(l1.items[0], Tup) and len(l1.items[0].items) == 4 and all(isinstance(x, Ref) for x in l1.items[0].items) and l1.lower is heap0[lst.h].lower
+                now = [x.h for x in l1.items[0].items] if framed else []
+                replaced = framed and now == [x.h for x in new.items]
+                in_place = framed and now == [x.h for x in top.items]
+                if not (replaced or in_place):
+                    ob(CL_S3, False, s1, aliasing=z3.StringVal(alias))
+                    continue
+                kk = z3.FreshConst(STR, "k")
+                goals = []
+                for cur_ref, ent in zip(l1.items[0].items, entry):
+                    cur = s1.get(cur_ref)
+                    goals.append(z3.And(cur.d[kk] == ent.d[kk], z3.Implies(ent.d[kk], cur.m[kk] == ent.m[kk])) if isinstance(cur, DictObj) and cur.vsort == ent.vsort else z3.BoolVal(False))
+                ob(CL_S3, z3.And(*goals), s1, aliasing=z3.StringVal(alias), how=z3.StringVal("replaced" if replaced else "in-place"))
+                touched = {lst.h} | ({x.h for x in top.items} if in_place and not replaced else set())
+                ob("set_shape_memo:S3:modifies-only-the-stack-list(and-the-frame's-own-dicts-when-restoring-in-place)", all(s1.heap.get(h) is o0 for h, o0 in heap0.items() if h not in touched), s1)
             else:
                 ob(f"set_shape_memo:{shape}:no-op-without-a-context", all(s1.heap.get(h) is o0 for h, o0 in heap0.items()), s1)
 
